@@ -420,6 +420,22 @@ func (g *TxGen) GenRegistry(t *rapid.T) *RegTx {
 		}
 		rt := *w.Runtime
 		rt.Executor.RoundTimeout = int64(rapid.IntRange(2, 6).Draw(t, "newRoundTimeout"))
+		// committee sizes change (takes effect at the next election, which may happen in the middle of an epoch)
+		if rapid.IntRange(0, 2).Draw(t, "rtResize") == 0 {
+			switch rapid.IntRange(0, 2).Draw(t, "rtResizeHow") {
+			case 0:
+				rt.Executor.GroupSize++
+			case 1:
+				rt.Executor.GroupBackupSize++
+			default:
+				if rt.Executor.GroupSize > 1 {
+					rt.Executor.GroupSize--
+				}
+			}
+			if rt.Executor.AllowedStragglers >= rt.Executor.GroupSize {
+				rt.Executor.AllowedStragglers = 0
+			}
+		}
 		thresholdsChanged := false
 		toRuntimeGov := false
 		if rt.GovernanceModel == registry.GovernanceEntity && rapid.IntRange(0, 2).Draw(t, "toRuntimeGov") == 0 {
